@@ -15,7 +15,7 @@ package eni
 //@   ensures old(ip.podID) != podID ==> ip.podID == old(ip.podID)
 //@   ensures forall q *IP :: q != ip ==> q.podID == old(q.podID)
 
-//@ for C01 C04
+//@ for C01 C04 C06
 //@ # the lookup never returns an address held by another pod: the pod's own address, else a valid unowned one
 //@ func Set.PeekAvailable
 //@   modifies nothing
